@@ -175,6 +175,8 @@ impl From<&[Term]> for NoGood {
 pub struct NoGoodStore {
     store: Vec<Vec<NoGood>>,
     duplicates: DuplicateElemination,
+    /// the empty [NoGood] has been added: it is violated by every interpretation
+    inconsistent: bool,
 }
 
 impl Display for NoGoodStore {
@@ -194,6 +196,7 @@ impl NoGoodStore {
         Self {
             store: vec![Vec::new(); size as usize],
             duplicates: DuplicateElemination::Equiv,
+            inconsistent: false,
         }
     }
 
@@ -234,12 +237,17 @@ impl NoGoodStore {
             } {
                 self.store[idx].push(nogood);
             }
+        } else {
+            self.inconsistent = true;
         }
     }
 
     /// Draws a (Conclusion)[NoGood], based on the [NoGoodStore] and the given [NoGood].
     /// *Returns* [None] if there is a conflict
     pub fn conclusions(&self, nogood: &NoGood) -> Option<NoGood> {
+        if self.inconsistent {
+            return None;
+        }
         let mut result = nogood.clone();
         log::trace!("ng-store: {:?}", self.store);
         self.store
